@@ -28,7 +28,8 @@ class C04(Prop):
                    'the end; this wrap-around is not modelled: declared exclusion, the driver answers bad-args)']
     rule = ('sampled transactions (1..4 inputs, 0..4 outputs, +-witness, both classes) with nLockTime / nSequence at '
             '{0, 2^31-1, 2^31, 2^32-1} and random x script codes of length {0, 0xfc, 0xfd, 300, small, mined} x amounts '
-            '{0, 1, 2^63-1, random} x every valid index x ALL 256 hash-type bytes; every standard template shape (P2WPKH/'
+            '{0, 1, 2^63-1, random} x every valid index x ALL 256 hash-type bytes; transactions with 253..258, 300, 1000 '
+            'inputs/outputs at indices 0, 1, 252..258, n-1, n x every hash-type class; every standard template shape (P2WPKH/'
             'P2WSH/v1..16 programs, P2PKH, P2SH, P2PK, multisig, nulldata, P2WPKH script code +- length prefix, empty, '
             'single opcodes) and its +-1-byte neighbours as script code; hash types outside one byte / '
             'negative / outside int32; every case also observes that the transaction object is unchanged; a subset '
@@ -88,6 +89,32 @@ class C04(Prop):
         # (H) histories: ONE live object hashed, edited in place, hashed again (stale memoisation / aliasing)
         for _ in range(max(1, (4800 if big else 320) // nshards)):
             yield mk('c04.hist', *H.gen_history(rng, G, self.pool, 'v0', big), tag='history')
+        # (M) many inputs / outputs: counts 253..258, 300, 1000 (CompactSize and CPython small-int boundaries), indices
+        #     0, 1, 252..258, n-1 (and n: IndexError) x every hash-type class; SINGLE with index >= len(vout) included.
+        #     Shard-independent transactions, partitioned by shape.
+        import random as _rnd
+        mrng = _rnd.Random('%s:%s:%s:many' % (getattr(self, 'seed', 0), self.id, tier))
+        mcount = 0
+        for j, (nin, nout) in enumerate(G.MANY_SHAPES):
+            t = G.many_tx(mrng, nin, nout)
+            sc = mrng.choice([b'', b'\x76\xa9\x14' + G.rbytes(mrng, 20) + b'\x88\xac', G.rbytes(mrng, 0xfd)])
+            amount = mrng.choice((0, 1, I64MAX, mrng.randrange(1 << 63)))
+            text = None
+            cls = 'im'[j % 2]
+            for idx in G.many_indices(nin):
+                mcount += 1
+                if mcount % nshards != shard:           # partition by (shape, index); the counter is deterministic
+                    continue
+                text = text or txfmt.show_tx(t)
+                for ht in (G.HT_CLASSES if idx < nin else (1, 3)):
+                    yield mk('c04.bip143', cls, sc.hex(), text, idx, ht, amount, tag='many')
+                if idx < nin:
+                    yield mk('c04.spec.bip143', cls, sc.hex(), text, idx, (2, 3, 0x82, 0x83, 1)[idx % 5], amount,
+                             tag='many-spec')
+            if j % nshards != shard:
+                continue
+            if (nin, nout) in ((258, 258), (300, 300), (300, 2)):
+                yield mk('c04.hist', *H.gen_history(rng, G, self.pool, 'v0', big, many=(nin, nout)), tag='history-many')
         # (T) every standard template shape (and its +-1-byte neighbours) as script code; shard-independent list,
         #     partitioned by index
         import random as _random
